@@ -41,6 +41,8 @@ WAIVED = {
     (26, 'H1 '): 'assumption: an attribute read fails only through a name the function compares with None / tests for truth, or when the function catches AttributeError',
     (26, 'Z1 '): 'hand-made `sized` without the `seqs` table; gate._sized passes both and lists are excluded',
     (26, 'gate: GS1 '): 'classes re-created by a decorator (@dataclass(slots=True)): not modelled; none in the code base',
+    (21, 'M2 '): 'assumption on attribute reads (see H1): r.hdr.kind fails only if the function reckons with r / r.hdr being None',
+    (21, 'M3 '): 'as above',
     (6, 'C5 '): 'assumption: a module-level constant bound once is not rebound from outside its module (the DEBUG-flag limitation, DESIGN 8.7)',
 }
 
